@@ -107,13 +107,17 @@ Section Events.
 
   (* ---- submission ---- *)
   Theorem user_event_J (s : state) g p t :
-    WFS s -> sub_ok p -> J s g -> J (r_s (user_event cfg s p t)) (gnext i g (DS (s_next_id s) p)).
+    WFS s -> sub_ok p -> J s g ->
+    gok i g (DS (s_next_id s) p) /\ J (r_s (user_event cfg s p t)) (gnext i g (DS (s_next_id s) p)).
   Proof.
-    intros HW Hsub HJ. cbn [gnext].
+    intros HW Hsub HJ.
+    assert (Hlt : g_ph g <> GAbs -> i < s_next_id s) by (intros Hne; exact (J_lt i s g Hne HJ)).
+    split; [cbn; intros E; destruct (g_ph g); [reflexivity|..]; exfalso; assert (i < s_next_id s) by (apply Hlt; discriminate); lia|].
+    cbn [gnext].
     assert (Hq : (s_next_id s = i -> pubq p = false) -> J (r_s (user_event cfg s p t)) g).
     { intros Hk. eapply quiet_J; [|exact HJ]. apply user_event_quiet; [apply wfs_pc; exact HW|exact Hk]. }
     destruct (g_ph g) eqn:Eph.
-    2-9: apply Hq; intros E; exfalso; unfold DeliveryWireDefs.J in HJ; rewrite Eph in HJ; destruct HJ as [Hlt _]; lia.
+    2-10: apply Hq; intros E; exfalso; assert (i < s_next_id s) by (apply Hlt; congruence); lia.
     destruct ((s_next_id s =? i) && pubq p) eqn:Eb; [|apply Hq; intros E; apply N.eqb_eq in E; rewrite E in Eb; exact Eb].
     apply andb_true_iff in Eb. destruct Eb as [En Ep]. apply N.eqb_eq in En.
     destruct p as [ | |pb| | | | | | | | | | | | ]; try discriminate. cbn in Ep, Hsub.
@@ -143,7 +147,7 @@ Section Events.
     s_ppub s = [] -> s_cur s = None -> s_st s <> Connected -> J s g -> J s (mkG false (g_sub g) (closed_ph (g_ph g))).
   Proof.
     intros Ep Ec Hst. unfold DeliveryWireDefs.J, DeliveryWireDefs.JP, DeliveryWireDefs.PJ. cbn [g_ph g_sub g_sp].
-    destruct (g_ph g) as [| |pid d|pid|pid|pid|pid|pid|] eqn:Eph; cbn [closed_ph]; try exact (fun H => H).
+    destruct (g_ph g) as [| |pid d|pid|pid|pid|pid|pid| |] eqn:Eph; cbn [closed_ph]; try exact (fun H => H).
     - (* GCur: impossible *)
       intros [Hlt H]. destruct d; (split; [exact Hlt|]); intros o Ho; destruct (H o Ho) as (pb & _ & _ & _ & Hc & _); congruence.
     - intros [Hlt H]. split; [exact Hlt|]. intros o Ho. destruct (H o Ho) as (pb & _ & _ & _ & Hc & _).
@@ -204,9 +208,12 @@ Section Events.
     assert (Hl : forall x, In x l -> exists p, In (p, x) (s_ppub s)).
     { intros x Hx. unfold l in Hx. apply in_map_iff in Hx. destruct Hx as ([p y] & E & Hin). cbn in E. subst y.
       apply filter_In in Hin. exists p. tauto. }
-    unfold DeliveryWireDefs.J in *. destruct (g_ph g) as [| |pid d|pid|pid|pid|pid|pid|] eqn:Eph; cbn [closed_ph g_ph].
+    unfold DeliveryWireDefs.J in *. destruct (g_ph g) as [| |pid d|pid|pid|pid|pid|pid| |] eqn:Eph; cbn [closed_ph g_ph].
     { (* not a QoS 1/2 publish *)
       intros o' Ho'. destruct (Ops _ _ Ho') as (o & Ho & _ & Hp). rewrite Hp. destruct (mem i l); rewrite ?pubq_with_dup; eapply HJ; exact Ho. }
+    9:{ (* handed to the encoder, but no QoS 1/2 publish *)
+      destruct HJ as [Hlt HJ]. split; [lia|]. intros o' Ho'. destruct (Ops _ _ Ho') as (o & Ho & _ & Hp). rewrite Hp.
+      destruct (mem i l); rewrite ?pubq_with_dup; eapply HJ; exact Ho. }
     all: destruct HJ as [Hlt HJ]; unfold DeliveryWireDefs.JP in *; cbn [g_sub g_ph g_sp].
     all: assert (Hop : forall o', getop s' i = Some o' ->
            exists o pb pb', getop s i = Some o /\ op_packet o = Publish pb /\ pub_qos pb <> 0 /\ norm (Publish pb) = g_sub g /\
@@ -265,7 +272,7 @@ Section Events.
   Proof.
     intros HW Hn HJ. destruct (reset_spec cfg s HW) as (_ & _ & _ & Eops & _).
     apply J_gone; [|unfold getop; rewrite Eops; reflexivity].
-    cbn [g_ph]. unfold DeliveryWireDefs.J in HJ. destruct (g_ph g) as [| |pid d|pid|pid|pid|pid|pid|]; cbn [closed_ph]; try congruence.
+    cbn [g_ph]. unfold DeliveryWireDefs.J in HJ. destruct (g_ph g) as [| |pid d|pid|pid|pid|pid|pid| |]; cbn [closed_ph]; try congruence.
     all: intros _; destruct HJ as [Hlt _]; lia.
   Qed.
 
